@@ -206,8 +206,9 @@ constexpr auto complex<T>::operator*=(T const& val) -> complex<T>&
 template <typename T>
 constexpr auto complex<T>::operator/=(T const& val) -> complex<T>&
 {
-    _real /= val;
-    _imag /= val;
+    auto const v = val; // val may refer to a part of *this (etl::get<0>(z))
+    _real /= v;
+    _imag /= v;
     return *this;
 }
 
